@@ -315,45 +315,7 @@ func (c *Ctx) ruleLocks() {
 		}
 	}
 
-	// ---- L6: the mutex is installed once (a second SetMutex must not replace a mutex somebody holds)
-	for _, f := range c.p.Funcs {
-		ord := newOrdinal()
-		var fa *FnAnalysis
-		for _, b := range f.Blocks {
-			for _, in := range b.Instrs {
-				st, ok := in.(*ssa.Store)
-				if !ok {
-					continue
-				}
-				fad, ok := st.Addr.(*ssa.FieldAddr)
-				if !ok || fieldName(fad) != "nodeConfig.mtx" {
-					continue
-				}
-				if fa == nil {
-					fa = c.eng.analyze(f, nil)
-				}
-				construct := ord.next("L6 mutex installed once")
-				okAll := fa.allHold(in, func(s *State) bool {
-					// the slot is known to be nil here (fresh configuration, or tested)
-					if _, isAlloc := fad.X.(*ssa.Alloc); isAlloc {
-						return true
-					}
-					at := fa.term(s, fad)
-					for _, f2 := range s.factList() {
-						if f2.Kind == aNN && !f2.Val && f2.T.K == "L" && f2.T.A == at {
-							return true
-						}
-					}
-					return false
-				})
-				if okAll {
-					rep.ok("R-LOCK", relName(f), construct, c.p.instrPos(in), "the mutex slot is written only when it is nil")
-				} else {
-					rep.bad("R-LOCK", relName(f), construct, c.p.instrPos(in), "the mutex can be replaced while it exists: a goroutine holding the old one and one locking the new one are both inside the critical section, and the old holder unlocks a mutex it never locked")
-				}
-			}
-		}
-	}
+	c.ruleMutexOnce()
 
 	// ---- L4: re-entrancy and pairing
 	c.ruleLockReentry("R-LOCK", c.p.Funcs)
@@ -427,6 +389,25 @@ func (c *Ctx) ruleLockPairing(rule string, scope []*ssa.Function) {
 				}
 			}
 			if deferred {
+				// ... and then nothing unlocks the same stack explicitly: the deferred call would
+				// unlock an unlocked mutex (a fatal runtime error) on that path
+				twice := ""
+				for _, u := range c.findCalls(f, "(*stack).unlock") {
+					if u.Block() == lk.Block() && instrIndex(u) < instrIndex(lk) {
+						continue
+					}
+					if c.blockReaches(lk.Block(), u.Block()) {
+						for _, s := range fa.statesBefore(u) {
+							if fa.term(s, u.Call.Args[0]) == held {
+								twice = c.p.instrPos(u)
+							}
+						}
+					}
+				}
+				if twice != "" {
+					rep.bad(rule, relName(f), construct, c.p.instrPos(lk), "unlock() is deferred and also called explicitly at "+twice+": the mutex is unlocked twice on that path (fatal: unlock of unlocked mutex)")
+					continue
+				}
 				rep.ok(rule, relName(f), construct, c.p.instrPos(lk), "unlock() is deferred immediately after the acquisition")
 				continue
 			}
@@ -628,4 +609,50 @@ func (c *Ctx) ruleLockSymmetry() {
 	} else {
 		rep.bad("R-LOCK", "(*stack).lock", "L8 lock and unlock decide alike", c.p.pos(lf.Pos()), "lock() reaches Mutex.Lock under {"+strings.Join(keys(lc), ", ")+"} but unlock() reaches Mutex.Unlock under {"+strings.Join(keys(uc), ", ")+"}: one of them would act on a mutex the other left alone")
 	}
+}
+
+// ruleMutexOnce (L6): the mutex is installed once - a second SetMutex must not
+// replace a mutex somebody may hold.
+func (c *Ctx) ruleMutexOnce() {
+	rep := c.rep
+	// ---- L6: the mutex is installed once (a second SetMutex must not replace a mutex somebody holds)
+	for _, f := range c.p.Funcs {
+		ord := newOrdinal()
+		var fa *FnAnalysis
+		for _, b := range f.Blocks {
+			for _, in := range b.Instrs {
+				st, ok := in.(*ssa.Store)
+				if !ok {
+					continue
+				}
+				fad, ok := st.Addr.(*ssa.FieldAddr)
+				if !ok || fieldName(fad) != "nodeConfig.mtx" {
+					continue
+				}
+				if fa == nil {
+					fa = c.eng.analyze(f, nil)
+				}
+				construct := ord.next("L6 mutex installed once")
+				okAll := fa.allHold(in, func(s *State) bool {
+					// the slot is known to be nil here (fresh configuration, or tested)
+					if _, isAlloc := fad.X.(*ssa.Alloc); isAlloc {
+						return true
+					}
+					at := fa.term(s, fad)
+					for _, f2 := range s.factList() {
+						if f2.Kind == aNN && !f2.Val && f2.T.K == "L" && f2.T.A == at {
+							return true
+						}
+					}
+					return false
+				})
+				if okAll {
+					rep.ok("R-LOCK", relName(f), construct, c.p.instrPos(in), "the mutex slot is written only when it is nil")
+				} else {
+					rep.bad("R-LOCK", relName(f), construct, c.p.instrPos(in), "the mutex can be replaced while it exists: a goroutine holding the old one and one locking the new one are both inside the critical section, and the old holder unlocks a mutex it never locked")
+				}
+			}
+		}
+	}
+
 }
